@@ -195,6 +195,9 @@ type gcKey[K any] struct {
 	scribble func(k K) // overwrite the caller's buffer after the call (slice keys)
 	hasRange bool
 	less     func(a, b K) bool
+	// prefixOf derives a Prefix argument from a key (trees that define Prefix)
+	prefixOf  func(k K, r *rng.R) K
+	hasPrefix func(k, p K) bool
 }
 
 func gcRun[K any, V any](res *ev.Result, unit string, newTree func() art.Tree[K, V], gk gcKey[K], gv gcVal[V], seed uint64, nOps int) {
@@ -288,6 +291,36 @@ func gcRun[K any, V any](res *ev.Result, unit string, newTree func() art.Tree[K,
 			}
 			res.Inc("gc_range_readbacks")
 		}
+		if gk.prefixOf != nil && len(live) > 0 {
+			i := r.Intn(universe)
+			full := gk.key(i)
+			p := gk.prefixOf(full, r)
+			want := 0
+			for j := range live {
+				if gk.hasPrefix(gk.key(j), p) {
+					want++
+				}
+			}
+			got := 0
+			for k, v := range t.Prefix(p) {
+				j, ok := index[gk.id(k)]
+				if !ok {
+					fail("Prefix yields a key that was never inserted", "one of the inserted keys", gk.id(k))
+					return false
+				}
+				if msg := gv.check(v, live[j]); msg != "" {
+					fail("a stored value changed under garbage collection (read through Prefix)", fmt.Sprintf("deep content of value id %d", live[j]), msg)
+					return false
+				}
+				got++
+				res.Evaluations++
+			}
+			if got != want {
+				fail("Prefix does not yield the stored pairs starting with the argument after garbage collection", fmt.Sprint(want), fmt.Sprint(got))
+				return false
+			}
+			res.Inc("gc_prefix_readbacks")
+		}
 		res.Inc("gc_readbacks")
 		return true
 	}
@@ -363,9 +396,11 @@ func gcRun[K any, V any](res *ev.Result, unit string, newTree func() art.Tree[K,
 
 func noScribble[K any](K) {}
 
+func strPrefix(k string, r *rng.R) string { return k[:r.Intn(len(k)+1)] }
+
 func keyString() gcKey[string] {
 	return gcKey[string]{"alpha/string", func(i int) string { return heapString("key-", uint64(i*7919)) }, func(k string) string { return k }, noScribble[string], true,
-		func(a, b string) bool { return a < b }}
+		func(a, b string) bool { return a < b }, strPrefix, strings.HasPrefix}
 }
 
 // keyLongPath: keys sharing a path longer than any inner node (checkptr sees
@@ -373,7 +408,7 @@ func keyString() gcKey[string] {
 func keyLongPath() gcKey[string] {
 	return gcKey[string]{"alpha/string-long-shared-path", func(i int) string {
 		return strings.Repeat("p", 120) + strings.Repeat("q", 200*(i%2)) + heapString("-", uint64(i*7919))
-	}, func(k string) string { return k }, noScribble[string], true, func(a, b string) bool { return a < b }}
+	}, func(k string) string { return k }, noScribble[string], true, func(a, b string) bool { return a < b }, strPrefix, strings.HasPrefix}
 }
 
 func keyBytes() gcKey[[]byte] {
@@ -382,11 +417,13 @@ func keyBytes() gcKey[[]byte] {
 			for j := range k {
 				k[j] = 0xEE
 			}
-		}, true, func(a, b []byte) bool { return string(a) < string(b) }}
+		}, true, func(a, b []byte) bool { return string(a) < string(b) },
+		func(k []byte, r *rng.R) []byte { return append([]byte{}, k[:r.Intn(len(k)+1)]...) },
+		func(k, p []byte) bool { return strings.HasPrefix(string(k), string(p)) }}
 }
 func keyU32() gcKey[uint32] {
 	return gcKey[uint32]{"uint32", func(i int) uint32 { return uint32(i) * 2654435761 }, func(k uint32) string { return strconv.FormatUint(uint64(k), 10) }, noScribble[uint32], true,
-		func(a, b uint32) bool { return a < b }}
+		func(a, b uint32) bool { return a < b }, nil, nil}
 }
 func keyI64() gcKey[int64] {
 	return gcKey[int64]{"int64", func(i int) int64 {
@@ -395,14 +432,15 @@ func keyI64() gcKey[int64] {
 			v = -v
 		}
 		return v
-	}, func(k int64) string { return strconv.FormatInt(k, 10) }, noScribble[int64], true, func(a, b int64) bool { return a < b }}
+	}, func(k int64) string { return strconv.FormatInt(k, 10) }, noScribble[int64], true, func(a, b int64) bool { return a < b }, nil, nil}
 }
 func keyF64() gcKey[float64] {
 	return gcKey[float64]{"float64", func(i int) float64 { return (float64(i) - 80.25) * math.Pi }, func(k float64) string { return strconv.FormatUint(math.Float64bits(k), 16) }, noScribble[float64], true,
-		func(a, b float64) bool { return a < b }}
+		func(a, b float64) bool { return a < b }, nil, nil}
 }
 func keyColl() gcKey[string] {
-	return gcKey[string]{"coll/string", func(i int) string { return heapString("Clé-", uint64(i*31)) }, func(k string) string { return k }, noScribble[string], false, nil}
+	return gcKey[string]{"coll/string", func(i int) string { return heapString("Clefdevoute", uint64(i*31)) }, func(k string) string { return k }, noScribble[string], false, nil,
+		func(k string, r *rng.R) string { return k[:r.Intn(12)] }, strings.HasPrefix} // prefixes inside the letters-only part
 }
 func keyCollRunes() gcKey[[]rune] {
 	return gcKey[[]rune]{"coll/runes", func(i int) []rune { return []rune(heapString("ключ-", uint64(i*17))) }, func(k []rune) string { return string(k) },
@@ -410,7 +448,7 @@ func keyCollRunes() gcKey[[]rune] {
 			for j := range k {
 				k[j] = 'Z'
 			}
-		}, false, nil}
+		}, false, nil, nil, nil}
 }
 
 var c18Schema = kinds.Schema{Fields: []kinds.FieldType{kinds.FU16, kinds.FI32}, Str: true}
@@ -419,7 +457,7 @@ func keyTuple() gcKey[kinds.Tuple] {
 	k := kinds.CompoundKind(c18Schema, true)
 	return gcKey[kinds.Tuple]{"compound(uint16,int32,string)", func(i int) kinds.Tuple {
 		return kinds.Tuple{N: [4]uint64{uint64(i % 5), uint64(int64(i*37 - 900))}, S: heapString("t", uint64(i))}
-	}, k.ID, noScribble[kinds.Tuple], true, func(a, b kinds.Tuple) bool { return k.Cmp(a, b) < 0 }}
+	}, k.ID, noScribble[kinds.Tuple], true, func(a, b kinds.Tuple) bool { return k.Cmp(a, b) < 0 }, nil, nil}
 }
 
 func c18Combos[V any](us *[]engine.Unit, gv gcVal[V], seed uint64, nOps int, mode string) {
